@@ -19,6 +19,96 @@ _ATOMIC = ("one model step = one section of the Go code under the connection mut
            "in addConn) or one unlocked poller statement (ResetPollerEvent, closeWithError after an error event); close = flag flip + teardown "
            "in one step (nothing else touches the write list once the flag is set)")
 
+# --------------------------------------------------------------------------- critical-section predicates
+# Coarse structural checks over the scratch copy of the source: that what the model treats as one step
+# really runs under the connection mutex (DESIGN 2.4c). Predicates over the ordered stream of
+# Lock / Unlock / return / selected statements of a function body, not AST equality.
+
+import os
+import re
+
+
+def _body(sc, fname, sig):
+    src = open(os.path.join(sc.dir, "nbio", fname), encoding="utf-8").read()
+    src = re.sub(r"//[^\n]*", "", src)
+    m = re.search(sig, src)
+    if not m:
+        return None
+    i = src.index("{", m.end() - 1)
+    depth, j = 0, i
+    while j < len(src):
+        if src[j] == "{":
+            depth += 1
+        elif src[j] == "}":
+            depth -= 1
+            if depth == 0:
+                return src[i:j + 1]
+        j += 1
+    return None
+
+
+_TOK = [("L", r"c\.mux\.Lock\(\)"), ("D", r"defer c\.mux\.Unlock\(\)"), ("U", r"c\.mux\.Unlock\(\)"), ("R", r"\breturn\b"),
+        ("C", r"c\.closed = true"), ("T", r"c\.closeWithErrorWithoutLock\("), ("W", r"c\.writeList"),
+        ("A", r"p\.(addRead|addReadWrite|resetRead|modWrite)\(fd\)"), ("F", r"\bfunc\(")]
+
+
+def _tokens(body):
+    out = []
+    for name, rx in _TOK:
+        for m in re.finditer(rx, body):
+            out.append((m.start(), name))
+    out.sort()
+    toks, last = [], -1
+    for pos, name in out:
+        if name == "U" and toks and toks[-1] == "D" and pos - last < 8:
+            continue  # the Unlock inside "defer c.mux.Unlock()"
+        toks.append(name)
+        last = pos
+    return "".join(toks)
+
+
+def cs_write_calls_locked(sc):
+    """Write / Writev: lock first, every return preceded by its own unlock, teardown only after the flag
+    was set and the mutex released; Sendfile / flush: lock + deferred unlock, nothing else."""
+    bad = []
+    for f, sig in (("conn_unix.go", r"func \(c \*Conn\) Write\("), ("conn_unix.go", r"func \(c \*Conn\) Writev\(")):
+        b = _body(sc, f, sig)
+        t = re.sub(r"[AF]", "", _tokens(b)) if b else ""
+        # closed test; fatal error path (flag, unlock, teardown); queue test + arming; final unlock
+        if not re.fullmatch(r"L(UR)+(CUTR)+W+UR", t):
+            bad.append("%s: lock/unlock/return stream %r" % (sig, t))
+    for f, sig in (("conn_unix.go", r"func \(c \*Conn\) flush\("), ("sendfile_unix.go", r"func \(c \*Conn\) Sendfile\(")):
+        b = _body(sc, f, sig)
+        t = re.sub(r"[WAFR]", "", _tokens(b)) if b else ""
+        if not re.fullmatch(r"LD(CT)*", t):
+            bad.append("%s: lock stream %r" % (sig, t))
+    return (not bad, "; ".join(bad))
+
+
+def cs_rearm_and_register_locked(sc):
+    """ResetPollerEvent and addConn: the look at the write list and the epoll_ctl lie in one locked region."""
+    bad = []
+    b = _body(sc, "poller_epoll.go", r"func \(c \*Conn\) ResetPollerEvent\(")
+    t = re.sub(r"[RF]", "", _tokens(b)) if b else ""
+    if not re.fullmatch(r"LWA+U", t):
+        bad.append("ResetPollerEvent: %r" % t)
+    b = _body(sc, "poller_epoll.go", r"func \(p \*poller\) addConn\(")
+    t = re.sub(r"[RF]", "", _tokens(b)) if b else ""
+    if not re.search(r"LWA+U", t) or re.search(r"A", re.sub(r"LWA+U", "", t)):
+        bad.append("addConn: %r" % t)
+    return (not bad, "; ".join(bad))
+
+
+def cs_close_test_and_set(sc):
+    """closeWithError: test-and-set of closed in one locked region, teardown after the unlock."""
+    b = _body(sc, "conn_unix.go", r"func \(c \*Conn\) closeWithError\(")
+    t = re.sub(r"[WAF]", "", _tokens(b)) if b else ""
+    ok = bool(re.fullmatch(r"LCURTUR|LCUTRUR|LCUR?TR?UR", t))
+    return (ok, "closeWithError: %r" % t)
+
+
+_CS = [cs_write_calls_locked, cs_rearm_and_register_locked, cs_close_test_and_set]
+
 PROPS = {
     "C01": {
         "manifest": {
@@ -30,7 +120,7 @@ PROPS = {
             "technique": _TECH},
         "lean": ["NbioVerif.Properties.C01"], "drivers": ["conndrv"], "harness": ["hconn"],
         "runs": [_run(["n", "err", "ow", "cb", "rc", "deliv", "closed", "wire", "onclose"])],
-        "oracles": ["c01-"],
+        "oracles": ["c01-"], "cs": _CS,
         "rule": "case = (stream type, epoll mode, bound, calls inside the open callback, op sequence with scripted kernel answers); distinct by "
                 "hash of (cell, per op: kind, error class, delivered event parts, queue length class, closed); non-trivial iff a backlog existed "
                 "at some observation or a call returned an error",
@@ -49,7 +139,7 @@ PROPS = {
             "technique": _TECH},
         "lean": ["NbioVerif.Properties.C04"], "drivers": ["conndrv"], "harness": ["hconn"],
         "runs": [_run(["deliv", "closed", "wl", "wadded", "reg", "ctl", "onclose"])],
-        "oracles": ["c04-"],
+        "oracles": ["c04-"], "cs": _CS,
         "rule": "same stream as C01 (writes inside the open callback before registration, from the data callback while an event is handled, "
                 "and between events; EPOLLOUT-only events whose flush ends in EAGAIN); non-trivial iff a backlog existed at some observation",
         "assumptions": [_KERNEL, _ATOMIC,
@@ -65,7 +155,7 @@ PROPS = {
             "technique": _TECH},
         "lean": ["NbioVerif.Properties.C17"], "drivers": ["conndrv"], "harness": ["hconn"],
         "runs": [_run(["n", "err", "ow", "cb", "rc", "closed", "left", "wl"])],
-        "oracles": ["c17-"],
+        "oracles": ["c17-"], "cs": _CS,
         "rule": "same stream as C01 with bounds drawn around the running totals (left + n = bound - 1, bound, bound + 1) and fill/drain cycles; "
                 "non-trivial iff a backlog existed at some observation or a call returned an error",
         "assumptions": [_KERNEL, _ATOMIC],
